@@ -13,6 +13,7 @@ use std::path::PathBuf;
 mod climodel;
 mod bytes_all;
 mod chains;
+mod restrip;
 
 fn write_lcov(rs: &[(PathBuf, PathBuf, CovResult)], path: &std::path::Path) -> Vec<u8> {
     output_lcov(rs, Some(path), false);
@@ -35,7 +36,16 @@ pub fn run(rep: &mut Report) {
     let mut reqs = vec![];
     let mut impls = vec![];
     for i in 0..n {
-        let rs = gen_result_set(&mut rng, 6);
+        let mut rs = gen_result_set(&mut rng, 6);
+        // wide branch lines (mutation miss N7: a writer that numbers slots modulo 256 exports
+        // BRF:300 and re-imports 256 slots): 255 / 256 / 257 / 300 outcomes on one line
+        if !rs.is_empty() && rng.chance(1, 12) {
+            let n = *rng.pick(&[255usize, 256, 257, 300]);
+            let v: Vec<bool> = (0..n).map(|j| j + 1 == n || rng.chance(1, 3)).collect();
+            let line = rng.range(1, 40) as u32;
+            rs[0].2.branches.insert(line, v);
+            rep.count(&format!("roundtrip.wide_branch_line.{}_slots", n));
+        }
         let bytes = guarded(|| write_lcov(&rs, &out_path));
         let bytes = match bytes {
             Ok(b) => b,
